@@ -457,6 +457,26 @@ func (g *Gen) Actions(fail func(t *rapid.T, err error)) map[string]func(*rapid.T
 			}
 			return x.Rename(LiveRef(src.Parent), src.Name, LiveRef(td), tn)
 		}),
+		// a SETATTR that must be refused as a whole although it carries acceptable attributes too: a size for a
+		// directory or a symbolic link, a size beyond the maximum for a file - together with times, mode, owner
+		"setattr_refused": do("SETATTR", func(t *rapid.T) error {
+			var cands []*MNode
+			switch rapid.IntRange(0, 2).Draw(t, "refusedkind") {
+			case 0:
+				cands = g.unskipped(x.M.LiveKind(nt.NF3DIR))
+			case 1:
+				cands = g.unskipped(x.M.LiveKind(nt.NF3LNK))
+			}
+			sz := uint64(pick(t, []int{0, 100, 4096}, "size"))
+			if len(cands) == 0 {
+				cands = g.unskipped(x.M.LiveKind(nt.NF3REG))
+				sz = x.M.Lim.MaxFileSize + uint64(pick(t, []int{1, 4096, 1 << 20}, "beyond"))
+			}
+			if len(cands) == 0 {
+				return nil
+			}
+			return x.Setattr(LiveRef(pick(t, cands, "obj")), &sz, true)
+		}),
 		"readdir": do("READDIR", func(t *rapid.T) error {
 			return x.Readdir(g.DirRef(t), false, pick(t, []uint32{100, 200, 512, 4096, 65536}, "count"))
 		}),
